@@ -171,7 +171,8 @@ func (st *Store) SetPendingAmount(addr keys.Address, height int64, coin *balance
 
 //iterate addresses for height
 func (st *Store) IteratePendingAmounts(height int64, fn func(addr *keys.Address, coin *balance.Coin) bool) bool {
-	prefix := append(st.buildPendingKey(), strconv.FormatInt(height, 10)...)
+	// the separator belongs to the prefix, otherwise height 12 also matches heights 120 to 129
+	prefix := append(st.buildPendingKey(), strconv.FormatInt(height, 10)+storage.DB_PREFIX...)
 	return st.iterateAddresses(prefix, func(addr *keys.Address, coin *balance.Coin) bool {
 		return fn(addr, coin)
 	})
